@@ -188,219 +188,238 @@ theorem head?_eq_some_cons {l : List Nat} {w : Nat} (h : l.head? = some w) : ∃
   | nil => simp at h
   | cons a t => simp at h; exact ⟨t, by rw [h]⟩
 
+/-- what `fixIndex` has to deliver for the list `pre ++ b :: post` -/
+def FixPost (s2 : State) (b : Nat) (pre post : List Nat) : Prop :=
+  s2.sorted = pre ++ b :: post ∧ ((pre ++ b :: post).map (G s2.ranks)).Pairwise (· < ·) ∧
+  ∀ x ∈ pre ++ b :: post, G s2.ranks x < U64
+
+/-- a new rank strictly between the neighbours -/
+theorem setcase (rk : AList Nat Nat) (b : Nat) (pre post : List Nat) (hbpre : b ∉ pre) (hbpost : b ∉ post)
+    (hasc : ((pre ++ post).map (G rk)).Pairwise (· < ·)) (hbnd : ∀ x ∈ pre ++ post, G rk x < U64)
+    (r : Nat) (h1 : ∀ x ∈ pre, G rk x < r) (h2 : ∀ y ∈ post, r < G rk y) (h3 : r < U64) :
+    ((pre ++ b :: post).map (G (rk.set b r))).Pairwise (· < ·) ∧ ∀ x ∈ pre ++ b :: post, G (rk.set b r) x < U64 := by
+  refine ⟨?_, ?_⟩
+  · rw [List.map_append, List.map_cons, map_G_set _ _ _ _ hbpre, map_G_set _ _ _ _ hbpost, G_set_self]
+    rw [List.map_append] at hasc
+    apply pairwise_mid hasc
+    · intro v hv; obtain ⟨x, hx, rfl⟩ := List.mem_map.mp hv; exact h1 x hx
+    · intro v hv; obtain ⟨x, hx, rfl⟩ := List.mem_map.mp hv; exact h2 x hx
+  · intro x hx
+    rcases List.mem_append.mp hx with hx | hx
+    · rw [G_set_other _ _ _ _ (fun e => by rw [e] at hx; exact hbpre hx)]
+      exact hbnd x (List.mem_append_left _ hx)
+    · rcases List.mem_cons.mp hx with rfl | hx
+      · rw [G_set_self]; exact h3
+      · rw [G_set_other _ _ _ _ (fun e => by rw [e] at hx; exact hbpost hx)]
+        exact hbnd x (List.mem_append_right _ hx)
+
+/-- reindexEverything -/
+theorem allcase (s0 : State) (l : List Nat) (hnd : l.Nodup) (h0 : s0.sorted = l) (hw0 : (reindexAll s0).rankWrap = false) :
+    (reindexAll s0).sorted = l ∧ (l.map (G (reindexAll s0).ranks)).Pairwise (· < ·) ∧
+    ∀ x ∈ l, G (reindexAll s0).ranks x < U64 := by
+  unfold reindexAll at hw0 ⊢
+  dsimp only at hw0 ⊢
+  have hroom : rankRoom (stepFor s0.pool.length) s0.sorted.length = true := by
+    cases hr : rankRoom (stepFor s0.pool.length) s0.sorted.length with
+    | true => rfl
+    | false => rw [hr] at hw0; simp at hw0
+  obtain ⟨r1, r2⟩ := rankRoom_spec _ _ hroom
+  rw [h0] at r2 ⊢
+  obtain ⟨a1, a2⟩ := rankFrom_asc _ r1 l SORT_START hnd (by omega)
+  exact ⟨rfl, a1, fun x hx => (a2 x hx).2⟩
+
+theorem mod_sub_U64 (a b : Nat) (h1 : b ≤ a) (h2 : a < U64) : (a + U64 - b) % U64 = a - b := by
+  have : a + U64 - b = (a - b) + U64 := by omega
+  rw [this, Nat.add_mod_right, Nat.mod_eq_of_lt (by omega)]
+
+/-- fixIndex, new best element -/
+theorem fix_ns (s : State) (b w : Nat) (post' : List Nat) (hs : s.sorted = b :: w :: post')
+    (hnd : (b :: w :: post').Nodup)
+    (hasc : ((w :: post').map (G s.ranks)).Pairwise (· < ·)) (hbnd : ∀ x ∈ w :: post', G s.ranks x < U64)
+    (hw : (fixIndex s b none (some w) (b :: w :: post')).rankWrap = false) :
+    FixPost (fixIndex s b none (some w) (b :: w :: post')) b [] (w :: post') := by
+  have hbpost : b ∉ w :: post' := (List.nodup_cons.mp hnd).1
+  have hwlt : ∀ y ∈ w :: post', G s.ranks w ≤ G s.ranks y := by
+    intro y hy
+    simp only [List.map_cons, List.pairwise_cons] at hasc
+    rcases List.mem_cons.mp hy with rfl | hy
+    · exact Nat.le_refl _
+    · exact Nat.le_of_lt (hasc.1 _ (List.mem_map.mpr ⟨y, hy, rfl⟩))
+  have hwb : G s.ranks w < U64 := hbnd w List.mem_cons_self
+  have hR : rankOf s w = G s.ranks w := rfl
+  unfold fixIndex at hw ⊢
+  dsimp only at hw ⊢
+  rw [hR] at hw ⊢
+  by_cases hgt : G s.ranks w > s.sortStep
+  · rw [if_pos hgt] at hw ⊢
+    have hst : s.sortStep ≠ 0 := by intro e; simp [e] at hw
+    obtain ⟨c1, c2⟩ := setcase s.ranks b [] (w :: post') (by simp) hbpost hasc hbnd (G s.ranks w - s.sortStep)
+      (by simp) (by intro y hy; have := hwlt y hy; omega) (by omega)
+    exact ⟨hs, c1, c2⟩
+  · rw [if_neg hgt] at hw ⊢
+    by_cases hz : G s.ranks w / 2 = G s.ranks w
+    · rw [if_pos hz] at hw ⊢
+      exact allcase _ _ hnd hs hw
+    · rw [if_neg hz]
+      obtain ⟨c1, c2⟩ := setcase s.ranks b [] (w :: post') (by simp) hbpost hasc hbnd (G s.ranks w / 2)
+        (by simp) (by intro y hy; have := hwlt y hy; omega) (by omega)
+      exact ⟨hs, c1, c2⟩
+
+/-- fixIndex, appended at the end -/
+theorem fix_sn (s : State) (b p : Nat) (pre' : List Nat) (hs : s.sorted = (pre' ++ [p]) ++ [b])
+    (hnd : ((pre' ++ [p]) ++ [b]).Nodup)
+    (hasc : ((pre' ++ [p]).map (G s.ranks)).Pairwise (· < ·)) (hbnd : ∀ x ∈ pre' ++ [p], G s.ranks x < U64)
+    (hw : (fixIndex s b (some p) none [b]).rankWrap = false) :
+    FixPost (fixIndex s b (some p) none [b]) b (pre' ++ [p]) [] := by
+  have hbpre : b ∉ pre' ++ [p] := by
+    intro h
+    rw [List.nodup_append] at hnd
+    exact hnd.2.2 b h b (by simp) rfl
+  have hR : rankOf s p = G s.ranks p := rfl
+  unfold fixIndex at hw ⊢
+  dsimp only at hw ⊢
+  rw [hR] at hw ⊢
+  have hnw : ¬ ((G s.ranks p + s.sortStep) % U64 ≤ G s.ranks p) := by
+    intro e; simp [e] at hw
+  have hple : ∀ x ∈ pre' ++ [p], G s.ranks x ≤ G s.ranks p := by
+    intro x hx
+    rw [List.map_append, List.pairwise_append] at hasc
+    rcases List.mem_append.mp hx with hx | hx
+    · exact Nat.le_of_lt (hasc.2.2 _ (List.mem_map.mpr ⟨x, hx, rfl⟩) _ (by simp))
+    · simp at hx; rw [hx]; exact Nat.le_refl _
+  obtain ⟨c1, c2⟩ := setcase s.ranks b (pre' ++ [p]) [] hbpre (by simp) (by simpa using hasc)
+    (by simpa using hbnd) ((G s.ranks p + s.sortStep) % U64)
+    (by intro x hx; have := hple x hx; omega) (by simp) (Nat.mod_lt _ U64_pos)
+  exact ⟨by rw [hs], c1, c2⟩
+
+/-- fixIndex, in between two elements -/
+theorem fix_ss (s : State) (b p w : Nat) (pre' post' : List Nat) (hs : s.sorted = (pre' ++ [p]) ++ b :: w :: post')
+    (hb0 : G s.ranks b = 0) (hnd : ((pre' ++ [p]) ++ b :: w :: post').Nodup)
+    (hasc : (((pre' ++ [p]) ++ (w :: post')).map (G s.ranks)).Pairwise (· < ·))
+    (hbnd : ∀ x ∈ (pre' ++ [p]) ++ (w :: post'), G s.ranks x < U64)
+    (hw : (fixIndex s b (some p) (some w) (b :: w :: post')).rankWrap = false) :
+    FixPost (fixIndex s b (some p) (some w) (b :: w :: post')) b (pre' ++ [p]) (w :: post') := by
+  have hnd0 := hnd
+  rw [List.nodup_append] at hnd
+  have hbpre : b ∉ pre' ++ [p] := fun h => hnd.2.2 b h b List.mem_cons_self rfl
+  have hbpost : b ∉ w :: post' := (List.nodup_cons.mp hnd.2.1).1
+  have hasc' := hasc
+  rw [List.map_append, List.pairwise_append] at hasc'
+  obtain ⟨q1, q2, q3⟩ := hasc'
+  have hpw : G s.ranks p < G s.ranks w :=
+    q3 _ (List.mem_map.mpr ⟨p, by simp, rfl⟩) _ (List.mem_map.mpr ⟨w, by simp, rfl⟩)
+  have hwb : G s.ranks w < U64 := hbnd w (by simp)
+  have hple : ∀ x ∈ pre' ++ [p], G s.ranks x ≤ G s.ranks p := by
+    intro x hx
+    rw [List.map_append, List.pairwise_append] at q1
+    rcases List.mem_append.mp hx with hx | hx
+    · exact Nat.le_of_lt (q1.2.2 _ (List.mem_map.mpr ⟨x, hx, rfl⟩) _ (by simp))
+    · simp at hx; rw [hx]; exact Nat.le_refl _
+  have hwle : ∀ y ∈ w :: post', G s.ranks w ≤ G s.ranks y := by
+    intro y hy
+    simp only [List.map_cons, List.pairwise_cons] at q2
+    rcases List.mem_cons.mp hy with rfl | hy
+    · exact Nat.le_refl _
+    · exact Nat.le_of_lt (q2.1 _ (List.mem_map.mpr ⟨y, hy, rfl⟩))
+  have hRp : rankOf s p = G s.ranks p := rfl
+  have hRw : rankOf s w = G s.ranks w := rfl
+  unfold fixIndex at hw ⊢
+  dsimp only at hw ⊢
+  rw [hRp, hRw, mod_sub_U64 _ _ (Nat.le_of_lt hpw) hwb] at hw ⊢
+  by_cases hge : G s.ranks w - G s.ranks p ≥ 2
+  · rw [if_pos hge]
+    have hlt : G s.ranks p + (G s.ranks w - G s.ranks p) / 2 < U64 := by omega
+    rw [Nat.mod_eq_of_lt hlt]
+    obtain ⟨c1, c2⟩ := setcase s.ranks b (pre' ++ [p]) (w :: post') hbpre hbpost hasc hbnd
+      (G s.ranks p + (G s.ranks w - G s.ranks p) / 2)
+      (by intro x hx; have := hple x hx; omega) (by intro y hy; have := hwle y hy; omega) hlt
+    exact ⟨hs, c1, c2⟩
+  · rw [if_neg hge] at hw ⊢
+    unfold reindexDown at hw ⊢
+    dsimp only at hw ⊢
+    cases hrk : reindexWalk (s.sortStep / 16) (G s.ranks p) (b :: w :: post') s.ranks with
+    | none =>
+      rw [hrk] at hw
+      dsimp only at hw ⊢
+      exact allcase s _ hnd0 hs hw
+    | some rk =>
+      rw [hrk] at hw
+      dsimp only at hw ⊢
+      have hst : 1 ≤ s.sortStep / 16 := by
+        have : ¬ (s.sortStep / 16 = 0) := by intro e; simp [e] at hw
+        omega
+      have hp2 : ((b :: w :: post').map (G s.ranks)).Pairwise (· < ·) := by
+        rw [List.map_cons, List.pairwise_cons]
+        refine ⟨?_, q2⟩
+        intro v hv
+        obtain ⟨y, hy, rfl⟩ := List.mem_map.mp hv
+        rw [hb0]
+        have := hwle y hy
+        omega
+      have hb2 : ∀ x ∈ b :: w :: post', G s.ranks x < U64 := by
+        intro x hx
+        rcases List.mem_cons.mp hx with rfl | hx
+        · rw [hb0]; exact U64_pos
+        · exact hbnd x (List.mem_append_right _ hx)
+      obtain ⟨j1, j2, j3⟩ := reindexWalk_spec _ hst (b :: w :: post') (G s.ranks p) s.ranks rk hnd.2.1 hp2 hb2 hrk
+      have hpre1 : ∀ x ∈ pre' ++ [p], G rk x = G s.ranks x := by
+        intro x hx
+        apply j1
+        intro hm
+        exact hnd.2.2 x hx x hm rfl
+      have hpre : (pre' ++ [p]).map (G rk) = (pre' ++ [p]).map (G s.ranks) := List.map_congr_left hpre1
+      show s.sorted = (pre' ++ [p]) ++ b :: w :: post' ∧
+        (((pre' ++ [p]) ++ b :: w :: post').map (G rk)).Pairwise (· < ·) ∧
+        ∀ x ∈ (pre' ++ [p]) ++ b :: w :: post', G rk x < U64
+      refine ⟨hs, ?_, ?_⟩
+      · rw [List.map_append, List.pairwise_append]
+        refine ⟨by rw [hpre]; exact q1, j2, ?_⟩
+        intro u hu v hv
+        rw [hpre] at hu
+        obtain ⟨x, hx, rfl⟩ := List.mem_map.mp hu
+        obtain ⟨y, hy, rfl⟩ := List.mem_map.mp hv
+        have a1 := hple x hx
+        have a2 := (j3 y hy).1
+        omega
+      · intro x hx
+        rcases List.mem_append.mp hx with hx | hx
+        · rw [hpre1 x hx]; exact hbnd x (List.mem_append_left _ hx)
+        · exact (j3 x hx).2
+
 /-- the rank table after `fixIndex` for the new element `b` linked in between `pre` and `post` -/
 theorem fixIndex_asc (s : State) (b : Nat) (pre post : List Nat)
     (hs : s.sorted = pre ++ b :: post) (hb0 : G s.ranks b = 0) (hnd : (pre ++ b :: post).Nodup)
     (hasc : ((pre ++ post).map (G s.ranks)).Pairwise (· < ·)) (hbnd : ∀ x ∈ pre ++ post, G s.ranks x < U64)
     (hne : pre ++ post ≠ [])
     (hw : (fixIndex s b pre.getLast? post.head? (b :: post)).rankWrap = false) :
-    (fixIndex s b pre.getLast? post.head? (b :: post)).sorted = pre ++ b :: post ∧
-    ((pre ++ b :: post).map (G (fixIndex s b pre.getLast? post.head? (b :: post)).ranks)).Pairwise (· < ·) ∧
-    ∀ x ∈ pre ++ b :: post, G (fixIndex s b pre.getLast? post.head? (b :: post)).ranks x < U64 := by
-  have hbpre : b ∉ pre := by
-    intro h
-    rw [List.nodup_append] at hnd
-    exact hnd.2.2 b h b List.mem_cons_self rfl
-  have hbpost : b ∉ post := by
-    rw [List.nodup_append] at hnd
-    exact (List.nodup_cons.mp hnd.2.1).1
-  -- the final assembly from "new rank r strictly between the neighbours"
-  have setcase : ∀ r, (∀ x ∈ pre, G s.ranks x < r) → (∀ y ∈ post, r < G s.ranks y) → r < U64 →
-      ((pre ++ b :: post).map (G (s.ranks.set b r))).Pairwise (· < ·) ∧
-      ∀ x ∈ pre ++ b :: post, G (s.ranks.set b r) x < U64 := by
-    intro r h1 h2 h3
-    refine ⟨?_, ?_⟩
-    · rw [List.map_append, List.map_cons, map_G_set _ _ _ _ hbpre, map_G_set _ _ _ _ hbpost, G_set_self]
-      rw [List.map_append] at hasc
-      apply pairwise_mid hasc
-      · intro v hv; obtain ⟨x, hx, rfl⟩ := List.mem_map.mp hv; exact h1 x hx
-      · intro v hv; obtain ⟨x, hx, rfl⟩ := List.mem_map.mp hv; exact h2 x hx
-    · intro x hx
-      rcases List.mem_append.mp hx with hx | hx
-      · rw [G_set_other _ _ _ _ (fun e => by rw [e] at hx; exact hbpre hx)]
-        exact hbnd x (List.mem_append_left _ hx)
-      · rcases List.mem_cons.mp hx with rfl | hx
-        · rw [G_set_self]; exact h3
-        · rw [G_set_other _ _ _ _ (fun e => by rw [e] at hx; exact hbpost hx)]
-          exact hbnd x (List.mem_append_right _ hx)
-  -- reindexEverything
-  have allcase : ∀ s0 : State, s0.sorted = pre ++ b :: post → (reindexAll s0).rankWrap = false →
-      (reindexAll s0).sorted = pre ++ b :: post ∧
-      ((pre ++ b :: post).map (G (reindexAll s0).ranks)).Pairwise (· < ·) ∧
-      ∀ x ∈ pre ++ b :: post, G (reindexAll s0).ranks x < U64 := by
-    intro s0 h0 hw0
-    unfold reindexAll at hw0 ⊢
-    dsimp only at hw0 ⊢
-    have hroom : rankRoom (stepFor s0.pool.length) s0.sorted.length = true := by
-      cases hr : rankRoom (stepFor s0.pool.length) s0.sorted.length with
-      | true => rfl
-      | false => rw [hr] at hw0; simp at hw0
-    obtain ⟨r1, r2⟩ := rankRoom_spec _ _ hroom
-    rw [h0] at r2 ⊢
-    obtain ⟨a1, a2⟩ := rankFrom_asc _ r1 (pre ++ b :: post) SORT_START hnd (by omega)
-    exact ⟨rfl, a1, fun x hx => (a2 x hx).2⟩
-  unfold fixIndex at hw ⊢
-  split at hw <;> rename_i hbt hwr
-  · -- no neighbours: excluded
-    exfalso
+    FixPost (fixIndex s b pre.getLast? post.head? (b :: post)) b pre post := by
+  cases hbt : pre.getLast? with
+  | none =>
     have h1 : pre = [] := by simpa using hbt
-    have h2 : post = [] := by simpa using hwr
-    rw [h1, h2] at hne; exact hne rfl
-  · -- new best element
-    rename_i w
-    have h1 : pre = [] := by simpa using hbt
-    obtain ⟨post', h2⟩ := head?_eq_some_cons hwr
     subst h1
-    have hwlt : ∀ y ∈ post, G s.ranks w ≤ G s.ranks y := by
-      intro y hy
-      rw [h2] at hy hasc
-      simp only [List.nil_append, List.map_cons, List.pairwise_cons] at hasc
-      rcases List.mem_cons.mp hy with rfl | hy
-      · exact Nat.le_refl _
-      · exact Nat.le_of_lt (hasc.1 _ (List.mem_map.mpr ⟨y, hy, rfl⟩))
-    have hwb : G s.ranks w < U64 := hbnd w (by rw [h2]; simp)
-    dsimp only at hw ⊢
-    split at hw
-    · rename_i hgt
-      rw [if_pos hgt]
-      have hst : s.sortStep ≠ 0 := by
-        intro e; simp [e] at hw
-      have hgt' : G s.ranks w > s.sortStep := hgt
-      obtain ⟨c1, c2⟩ := setcase (rankOf s w - s.sortStep) (by simp)
-        (by intro y hy; have := hwlt y hy; show G s.ranks w - s.sortStep < _; omega)
-        (by show G s.ranks w - s.sortStep < _; omega)
-      exact ⟨hs, c1, c2⟩
-    · rename_i hle
-      rw [if_neg hle]
-      split at hw
-      · rename_i hz
-        rw [if_pos hz]
-        exact allcase _ hs hw
-      · rename_i hz
-        rw [if_neg hz]
-        have hgw : G s.ranks w / 2 < G s.ranks w := by
-          have : rankOf s w / 2 ≠ rankOf s w := hz
-          have : G s.ranks w / 2 ≠ G s.ranks w := this
-          omega
-        obtain ⟨c1, c2⟩ := setcase (rankOf s w / 2) (by simp)
-          (by intro y hy; have := hwlt y hy; show G s.ranks w / 2 < _; omega)
-          (by show G s.ranks w / 2 < _; omega)
-        exact ⟨hs, c1, c2⟩
-  · -- appended at the end
-    rename_i p
-    have h2 : post = [] := by simpa using hwr
+    cases hwr : post.head? with
+    | none =>
+      exfalso
+      have h2 : post = [] := by simpa using hwr
+      rw [h2] at hne; exact hne rfl
+    | some w =>
+      obtain ⟨post', h2⟩ := head?_eq_some_cons hwr
+      subst h2
+      rw [hbt, hwr] at hw
+      exact fix_ns s b w post' hs hnd (by simpa using hasc) (by simpa using hbnd) hw
+  | some p =>
     obtain ⟨pre', h1⟩ := getLast?_eq_some_append hbt
-    subst h2
-    dsimp only at hw ⊢
-    have hnw : ¬ ((rankOf s p + s.sortStep) % U64 ≤ rankOf s p) := by
-      intro e; simp [e] at hw
-    have hple : ∀ x ∈ pre, G s.ranks x ≤ G s.ranks p := by
-      intro x hx
-      rw [h1] at hx hasc
-      simp only [List.append_nil, List.map_append, List.map_cons, List.map_nil] at hasc
-      rw [List.pairwise_append] at hasc
-      rcases List.mem_append.mp hx with hx | hx
-      · exact Nat.le_of_lt (hasc.2.2 _ (List.mem_map.mpr ⟨x, hx, rfl⟩) _ (by simp))
-      · simp at hx; rw [hx]; exact Nat.le_refl _
-    obtain ⟨c1, c2⟩ := setcase ((rankOf s p + s.sortStep) % U64)
-      (by intro x hx; have := hple x hx; have : G s.ranks p < (rankOf s p + s.sortStep) % U64 := by
-            show rankOf s p < _; omega
-          omega)
-      (by simp) (Nat.mod_lt _ U64_pos)
-    exact ⟨hs, c1, c2⟩
-  · -- in between
-    rename_i p w
-    obtain ⟨pre', h1⟩ := getLast?_eq_some_append hbt
-    obtain ⟨post', h2⟩ := head?_eq_some_cons hwr
-    have hasc' := hasc
-    rw [List.map_append, List.pairwise_append] at hasc'
-    obtain ⟨q1, q2, q3⟩ := hasc'
-    have hpw : G s.ranks p < G s.ranks w :=
-      q3 _ (List.mem_map.mpr ⟨p, by rw [h1]; simp, rfl⟩) _ (List.mem_map.mpr ⟨w, by rw [h2]; simp, rfl⟩)
-    have hwb : G s.ranks w < U64 := hbnd w (List.mem_append_right _ (by rw [h2]; simp))
-    have hple : ∀ x ∈ pre, G s.ranks x ≤ G s.ranks p := by
-      intro x hx
-      rw [h1] at hx q1
-      rw [List.map_append, List.pairwise_append] at q1
-      rcases List.mem_append.mp hx with hx | hx
-      · exact Nat.le_of_lt (q1.2.2 _ (List.mem_map.mpr ⟨x, hx, rfl⟩) _ (by simp))
-      · simp at hx; rw [hx]; exact Nat.le_refl _
-    have hwle : ∀ y ∈ post, G s.ranks w ≤ G s.ranks y := by
-      intro y hy
-      rw [h2] at hy q2
-      simp only [List.map_cons, List.pairwise_cons] at q2
-      rcases List.mem_cons.mp hy with rfl | hy
-      · exact Nat.le_refl _
-      · exact Nat.le_of_lt (q2.1 _ (List.mem_map.mpr ⟨y, hy, rfl⟩))
-    have hdiff : (rankOf s w + U64 - rankOf s p) % U64 = G s.ranks w - G s.ranks p := by
-      show (G s.ranks w + U64 - G s.ranks p) % U64 = _
-      have : G s.ranks w + U64 - G s.ranks p = (G s.ranks w - G s.ranks p) + U64 := by omega
-      rw [this, Nat.add_mod_right, Nat.mod_eq_of_lt (by omega)]
-    dsimp only at hw ⊢
-    rw [hdiff] at hw ⊢
-    split at hw
-    · rename_i hge
-      rw [if_pos hge]
-      have hlt : rankOf s p + (G s.ranks w - G s.ranks p) / 2 < U64 := by
-        show G s.ranks p + _ < _; omega
-      rw [Nat.mod_eq_of_lt hlt]
-      obtain ⟨c1, c2⟩ := setcase (rankOf s p + (G s.ranks w - G s.ranks p) / 2)
-        (by intro x hx; have := hple x hx; show _ < G s.ranks p + _; omega)
-        (by intro y hy; have := hwle y hy; show G s.ranks p + _ < _; omega)
-        hlt
-      exact ⟨hs, c1, c2⟩
-    · rename_i hlt
-      rw [if_neg hlt]
-      unfold reindexDown at hw ⊢
-      dsimp only at hw ⊢
-      split at hw
-      · rename_i rk hrk
-        simp only [hrk]
-        have hst : 1 ≤ s.sortStep / 16 := by
-          have : ¬ (s.sortStep / 16 = 0) := by intro e; simp [e] at hw
-          omega
-        have hn2 : (b :: post).Nodup := by rw [List.nodup_append] at hnd; exact hnd.2.1
-        have hp2 : ((b :: post).map (G s.ranks)).Pairwise (· < ·) := by
-          simp only [List.map_cons, List.pairwise_cons]
-          refine ⟨?_, q2⟩
-          intro v hv
-          obtain ⟨y, hy, rfl⟩ := List.mem_map.mp hv
-          rw [hb0]
-          have := hwle y hy
-          omega
-        have hb2 : ∀ x ∈ b :: post, G s.ranks x < U64 := by
-          intro x hx
-          rcases List.mem_cons.mp hx with rfl | hx
-          · rw [hb0]; exact U64_pos
-          · exact hbnd x (List.mem_append_right _ hx)
-        obtain ⟨j1, j2, j3⟩ := reindexWalk_spec _ hst (b :: post) (rankOf s p) s.ranks rk hn2 hp2 hb2 hrk
-        have hpre : pre.map (G rk) = pre.map (G s.ranks) := by
-          apply List.map_congr_left
-          intro x hx
-          apply j1
-          intro hm
-          rw [List.nodup_append] at hnd
-          exact hnd.2.2 x hx x hm rfl
-        refine ⟨hs, ?_, ?_⟩
-        · rw [List.map_append, List.pairwise_append]
-          refine ⟨by rw [hpre]; exact q1, j2, ?_⟩
-          intro u hu v hv
-          rw [hpre] at hu
-          obtain ⟨x, hx, rfl⟩ := List.mem_map.mp hu
-          obtain ⟨y, hy, rfl⟩ := List.mem_map.mp hv
-          have a1 := hple x hx
-          have a2 := (j3 y hy).1
-          have : rankOf s p = G s.ranks p := rfl
-          omega
-        · intro x hx
-          rcases List.mem_append.mp hx with hx | hx
-          · have : G rk x = G s.ranks x := by
-              apply j1
-              intro hm
-              rw [List.nodup_append] at hnd
-              exact hnd.2.2 x hx x hm rfl
-            rw [this]; exact hbnd x (List.mem_append_left _ hx)
-          · exact (j3 x hx).2
-      · exact allcase s hs hw
+    subst h1
+    cases hwr : post.head? with
+    | none =>
+      have h2 : post = [] := by simpa using hwr
+      subst h2
+      rw [hbt, hwr] at hw
+      exact fix_sn s b p pre' hs hnd (by simpa using hasc) (by simpa using hbnd) hw
+    | some w =>
+      obtain ⟨post', h2⟩ := head?_eq_some_cons hwr
+      subst h2
+      rw [hbt, hwr] at hw
+      exact fix_ss s b p w pre' post' hs hb0 hnd hasc hbnd hw
 
 end GocoinV.Mempool
